@@ -335,6 +335,42 @@ func init() {
 		"strings.Compare": func(fr *frame, a []value) value {
 			return fr.i.seqCompare(strBytes(a[0]), strBytes(a[1]))
 		},
+		"(*sync/atomic.Value).Load": func(fr *frame, a []value) value {
+			return (*a[0].(*value)).(structure)[0]
+		},
+		"(*sync/atomic.Value).Store": func(fr *frame, a []value) value {
+			st := (*a[0].(*value)).(structure)
+			fr.i.write(&st[0], a[1])
+			return nil
+		},
+		"(*sync/atomic.Value).Swap": func(fr *frame, a []value) value {
+			st := (*a[0].(*value)).(structure)
+			old := st[0]
+			fr.i.write(&st[0], a[1])
+			return old
+		},
+		"(*sync/atomic.Value).CompareAndSwap": func(fr *frame, a []value) value {
+			st := (*a[0].(*value)).(structure)
+			if fr.i.truth(fr.i.eqv(nil, st[0], a[1])) {
+				fr.i.write(&st[0], a[2])
+				return true
+			}
+			return false
+		},
+		"maps.clone": func(fr *frame, a []value) value {
+			x := a[0].(iface)
+			m, _ := x.v.(*omap)
+			if m == nil {
+				return x
+			}
+			n := newMap(m.keyT)
+			for _, e := range m.entries {
+				if !e.deleted {
+					fr.i.mapSet(n, e.key, copyVal(e.val))
+				}
+			}
+			return iface{t: x.t, v: n}
+		},
 		"slices.overlaps": func(fr *frame, a []value) value {
 			x, y := a[0].([]value), a[1].([]value)
 			if len(x) == 0 || len(y) == 0 {
@@ -371,6 +407,10 @@ func init() {
 		"(*sync.WaitGroup).Add":        extNop,
 		"(*sync.WaitGroup).Done":       extNop,
 		"(*sync.WaitGroup).Wait":       extNop,
+		"(*sync.WaitGroup).Go": func(fr *frame, a []value) value {
+			fr.i.call(fr, 0, a[1], nil)
+			return nil
+		},
 		"(*sync.Pool).Get": func(fr *frame, a []value) value {
 			p := (*a[0].(*value)).(structure)
 			// last field is New func() any
